@@ -204,6 +204,7 @@ static const char *prop_of(const Op &op)
     case plan::K_EXTEND:
         return "C05";
     case plan::K_MERKLE:
+    case plan::K_MERKLE_XCHECK:
         return "C08";
     default:
         return "C17";
@@ -939,6 +940,62 @@ static void exec_merkle(Ctx &c, const Op &op)
 }
 
 // ---------------------------------------------------------------------------------------------
+// bulk cross-backend agreement (C08: "every backend produces the same tree").  One large input, every builder
+// of the build, trees compared element-wise as field elements; no reference tree (the % p oracle is ~100x
+// slower than the library).  Meant for the uninstrumented flavours, where it pushes ~10^8 permutations through
+// the vector kernels: a value-dependent divergence between backends is only ever found by volume.
+// ---------------------------------------------------------------------------------------------
+static void exec_xcheck(Ctx &c, const Op &op)
+{
+    RunResult &r = c.res;
+    uint64_t nelem = op.rows * op.cols * op.dim;
+    std::vector<uint64_t> in = gen_input(op.input, op.rows, op.cols * op.dim, op.input_seed);
+    uint64_t tsize = 4 * (2 * op.rows - 1);
+    static const int plain_v[] = {shim::MK_SEQ, shim::MK_AVX, shim::MK_WRAPPER, shim::MK_AVX512};
+    static const int batch_v[] = {shim::MK_BATCH_SEQ, shim::MK_BATCH_AVX, shim::MK_BATCH_WRAPPER, shim::MK_BATCH_AVX512};
+    uint64_t perms = 0;
+    for (int fam = 0; fam < 2; fam++)
+    {
+        std::vector<uint64_t> first;
+        int first_v = -1;
+        for (int k = 0; k < 4; k++)
+        {
+            int v = fam ? batch_v[k] : plain_v[k];
+            if ((v == shim::MK_AVX512 || v == shim::MK_BATCH_AVX512) && !shim::built_with_avx512())
+                continue;
+            HBuf I(nelem, "input");
+            I.load(in, nelem);
+            HBuf T(tsize, "tree");
+            T.fill_garbage(derive_seed(op.garbage_seed, 7 + (uint64_t)v));
+            sim::OpSim cfg = sim_cfg_of(op);
+            cfg.detect_races = false;
+            sim::OpStats st = simulate(cfg, [&] { shim::merkle(v, T.p(), I.p(), op.cols, op.rows, op.batch, op.nthreads, op.dim); });
+            r.regions += st.regions;
+            perms += op.rows * ((op.cols * op.dim + 7) / 8) + op.rows;
+            std::vector<uint64_t> out = T.vec();
+            if (first_v < 0)
+            {
+                first = out;
+                first_v = v;
+                r.hash = fnv_vec(out, r.hash);
+                r.outcome_hash = fnv_vec(out, r.outcome_hash);
+                continue;
+            }
+            long d = first_diff_field(out, first);
+            if (d >= 0)
+            {
+                char buf[200];
+                snprintf(buf, sizeof buf, "tree element %ld (node %ld, word %ld): builder variant %d disagrees with variant %d", d, d / 4, d % 4, v, first_v);
+                c.violation("backend-disagreement", {"C08"}, op, "every backend produces the same tree (bulk cross-check)", buf);
+            }
+        }
+    }
+    r.faults["bulk_permutations"] += perms;
+    r.probes.insert("bulk_cross_backend_check");
+    c.last_out_digest = 0;
+}
+
+// ---------------------------------------------------------------------------------------------
 // parcpy / parSetZero
 // ---------------------------------------------------------------------------------------------
 static void exec_copy(Ctx &c, const Op &op)
@@ -1092,6 +1149,9 @@ RunResult run_plan(const Plan &p0, uint64_t garbage_salt)
             break;
         case plan::K_MERKLE:
             exec_merkle(c, op);
+            break;
+        case plan::K_MERKLE_XCHECK:
+            exec_xcheck(c, op);
             break;
         case plan::K_PARCPY:
         case plan::K_PARSETZERO:
